@@ -14,6 +14,30 @@ CHECKS = {
          "Bounded-exhaustive in histories, finite in values.",
          "Trusted: my G0/G1/G90/G91/G92/G28/G38 interpreter and lexer; alphabets of values; depth bound; rounding budget of 0.5 unit per emitted word.",
          "DESIGN.md §5 C01"),
+ "C02": ("E1", "model_checking",
+         "explicit-state BFS to closure over the interlock API of the real builder; stream monitor + lock-step tool/coolant automaton",
+         "The reachable modal state space under the interlock alphabet is finite and is explored until the frontier is empty; every transition is "
+         "checked against the property verbatim (monitor on emitted lines) and against a reference automaton that says exactly which calls must be rejected and how.",
+         "Trusted: my modal interpreter and the reference automaton (documented rejection conditions); value alphabets; canonical form drops position/temperatures.",
+         "DESIGN.md §5 C02"),
+ "C05": ("E1", "model_checking",
+         "explicit-state BFS over builder states x a catalogue of calls failing at each validation step; snapshot equality + differential continuation on a twin",
+         "From every state reached by the state-building alphabet (depth-bounded) every catalogued failing call is executed on the real builder; a call that raises must "
+         "emit nothing, leave the public snapshot unchanged and leave later calls behaving as on a twin that never saw it.",
+         "Trusted: completeness of the public snapshot (backed by the differential continuation); catalogue of failing calls; depth bound. Known finding: G90/G91 pair emitted by a rejected bypass move in relative mode.",
+         "DESIGN.md §5 C05"),
+ "C06": ("E1", "model_checking",
+         "explicit-state BFS to closure per bounds configuration; shutdown calls checked from every reached state",
+         "For each bounds configuration (incl. tool-power ranges excluding zero) the reachable modal state space is closed and tool_off/power_off/coolant_off/emergency_halt are "
+         "executed from every state: must not raise, must emit exactly the documented codes in order, must leave the flags inactive.",
+         "Trusted: modal interpreter; finite value alphabets chosen inside each configured range; listed bounds configurations.",
+         "DESIGN.md §5 C06"),
+ "C13": ("E1", "model_checking",
+         "explicit-state BFS over transformer histories with an independent pure-python 4x4 matrix model stepped in lock-step",
+         "All histories of transform/state/context operations up to the depth bound are executed on the real CoordinateTransformer (inside GCodeCore for the context managers); the current, "
+         "stacked and named transforms are compared with the model on probe points after every operation.",
+         "Trusted: pure-python affine model; 3 probe points with relative tolerance 1e-8; parameter alphabet; depth bound.",
+         "DESIGN.md §5 C13"),
 }
 
 PENDING_REASON = "check not built yet in this revision (planned, see DESIGN.md §5); not claimed until it runs"
